@@ -287,6 +287,39 @@ class _Inliner(object):
                 ast.fix_missing_locations(new_if)
                 self.expanded[key] = self.expanded.get(key, 0) + 1
                 return pre + [new_if]
+            # a predicate made of `if C: return False` guards, plain statements and a final `return E`, used as the whole test of
+            # an `if` without else:  ->  the statements, `if not C:` nestings and `if E: <body>` innermost
+            if st.test is call and not st.orelse and hb and isinstance(hb[-1], ast.Return) and hb[-1].value is not None:
+                def _guard(b):
+                    return isinstance(b, ast.If) and not b.orelse and len(b.body) == 1 and isinstance(b.body[0], ast.Return) and \
+                        isinstance(b.body[0].value, ast.Constant) and b.body[0].value.value is False
+                if all(_guard(b) or not _contains_return(b) for b in hb[:-1]) and any(_guard(b) for b in hb[:-1]) and \
+                        not any(isinstance(b, (ast.For, ast.While, ast.Try, ast.With)) for b in hb[:-1]):
+                    try:
+                        _fn, _params, bound_ = self._bind(key, call, takes_self)
+                    except _Unsupported:
+                        bound_ = None
+                    if bound_ is not None and all(_simple(v_) for v_ in bound_.values()):
+                        self.counter += 1
+                        tag = "_h%d_" % self.counter
+                        assigned = set(n_.id for b in hb for n_ in ast.walk(b) if isinstance(n_, ast.Name) and isinstance(n_.ctx, (ast.Store, ast.Del)))
+                        sb = _Subst(dict(bound_), dict((nm, tag + nm) for nm in assigned))
+                        body2 = [sb.visit(copy.deepcopy(b)) for b in hb]
+
+                        def nest(items):
+                            if len(items) == 1:
+                                inner = ast.If(test=items[0].value, body=st.body, orelse=[])
+                                return [ast.copy_location(inner, st)]
+                            head, rest = items[0], items[1:]
+                            if _guard(head):
+                                neg = ast.UnaryOp(op=ast.Not(), operand=head.test)
+                                return [ast.copy_location(ast.If(test=neg, body=nest(rest), orelse=[]), st)]
+                            return [head] + nest(rest)
+                        out = nest(body2)
+                        for x in out:
+                            ast.fix_missing_locations(x)
+                        self.expanded[key] = self.expanded.get(key, 0) + 1
+                        return out
             self.counter += 1
             tmp = "_h%d_test" % self.counter
             hoist = ast.Assign(targets=[ast.Name(id=tmp, ctx=ast.Store())], value=call)
@@ -607,23 +640,40 @@ class _ReturnIfExp(ast.NodeTransformer):
         return node
 
     def visit_Assign(self, node):
-        # `a, b = X, Y` -> `a = X; b = Y` when no target name occurs in X or Y (not a swap): each value gets its own definition
+        def _tname(t):
+            if isinstance(t, ast.Name):
+                return t.id
+            if isinstance(t, ast.Attribute) and isinstance(t.value, ast.Name) and t.value.id == "self":
+                return "self." + t.attr
+            return None
+        # `a = b = V` with a constant / simple V -> `a = V; b = V`
+        if len(node.targets) > 1 and all(_tname(t) for t in node.targets) and _simple(node.value):
+            self.count += 1
+            out = []
+            for t in node.targets:
+                a = ast.copy_location(ast.Assign(targets=[t], value=copy.deepcopy(node.value)), node)
+                out.append(ast.fix_missing_locations(a))
+            return out
+        # `a, b = X, Y` -> `a = X; b = Y` when no target occurs in X or Y (not a swap): each value gets its own definition
         if len(node.targets) == 1 and isinstance(node.targets[0], ast.Tuple) and isinstance(node.value, ast.Tuple) and \
-                len(node.targets[0].elts) == len(node.value.elts) and all(isinstance(t, ast.Name) for t in node.targets[0].elts) and \
+                len(node.targets[0].elts) == len(node.value.elts) and all(_tname(t) for t in node.targets[0].elts) and \
                 not any(isinstance(x, ast.Starred) for x in node.value.elts):
-            names = set(t.id for t in node.targets[0].elts)
-            used = set(n.id for v_ in node.value.elts for n in ast.walk(v_) if isinstance(n, ast.Name))
+            names = set(_tname(t) for t in node.targets[0].elts)
+            used = set(n.id for v_ in node.value.elts for n in ast.walk(v_) if isinstance(n, ast.Name)) | \
+                set("self." + n.attr for v_ in node.value.elts for n in ast.walk(v_)
+                    if isinstance(n, ast.Attribute) and isinstance(n.value, ast.Name) and n.value.id == "self")
             if len(names) == len(node.targets[0].elts) and not (names & used):
                 self.count += 1
                 out = []
                 for t, v_ in zip(node.targets[0].elts, node.value.elts):
-                    a = ast.copy_location(ast.Assign(targets=[ast.Name(id=t.id, ctx=ast.Store())], value=v_), node)
+                    a = ast.copy_location(ast.Assign(targets=[t], value=v_), node)
                     r = self.visit_Assign(ast.fix_missing_locations(a))
                     out.extend(r if isinstance(r, list) else [r])
                 return out
         # `x = A if c else B` -> `if c: x = A` / `else: x = B` when A or B contains a call (the two calls become two CFG nodes)
         v = node.value
-        if isinstance(v, ast.IfExp) and len(node.targets) == 1 and isinstance(node.targets[0], ast.Name) and \
+        if isinstance(v, ast.IfExp) and len(node.targets) == 1 and (isinstance(node.targets[0], ast.Name) or (
+                isinstance(node.targets[0], ast.Attribute) and isinstance(node.targets[0].value, ast.Name) and node.targets[0].value.id == "self")) and \
                 (any(isinstance(x, ast.Call) for x in list(ast.walk(v.body)) + list(ast.walk(v.orelse))) or
                  (isinstance(v.body, ast.Attribute) and isinstance(v.orelse, ast.Attribute))):
             self.count += 1
@@ -645,7 +695,55 @@ class _ReturnIfExp(ast.NodeTransformer):
             return ast.fix_missing_locations(ast.copy_location(new, node))
         return node
 
+    def visit_For(self, node):
+        # `for x in (e1, ..., ek): body` over a short display of simple expressions, body without break / continue / else and
+        # not rebinding x: the k copies of the body with x replaced by e1 ... ek
+        self.generic_visit(node)
+        it = node.iter
+        if not (isinstance(it, (ast.Tuple, ast.List)) and 1 <= len(it.elts) <= 6 and not node.orelse):
+            return node
+        if any(isinstance(n, (ast.Break, ast.Continue, ast.Return, ast.Yield, ast.YieldFrom)) for st in node.body for n in ast.walk(st)):
+            return node
+        tg = node.target
+        if isinstance(tg, ast.Name):
+            names = [tg.id]
+            rows = [[e] for e in it.elts]
+        elif isinstance(tg, ast.Tuple) and all(isinstance(t, ast.Name) for t in tg.elts) and \
+                all(isinstance(e, ast.Tuple) and len(e.elts) == len(tg.elts) for e in it.elts):
+            names = [t.id for t in tg.elts]
+            rows = [list(e.elts) for e in it.elts]
+        else:
+            return node
+        def pure(x):
+            return _simple(x) or (isinstance(x, ast.Call) and isinstance(x.func, ast.Name) and x.func.id in ("len", "str") and
+                                  len(x.args) == 1 and not x.keywords and pure(x.args[0]))
+        if not all(pure(x) for r in rows for x in r):
+            return node
+        stored = set(n.id for st in node.body for n in ast.walk(st) if isinstance(n, ast.Name) and isinstance(n.ctx, (ast.Store, ast.Del)))
+        elem_names = set(n.id for r in rows for x in r for n in ast.walk(x) if isinstance(n, ast.Name))
+        if stored & (set(names) | elem_names):
+            return node
+        self.count += 1
+        out = []
+        for r in rows:
+            mapping = dict(zip(names, r))
+            for st in node.body:
+                out.append(_AliasSubstMany(mapping).visit(copy.deepcopy(st)))
+        for st in out:
+            ast.fix_missing_locations(st)
+        return out
+
     def visit_Lambda(self, node):
+        return node
+
+
+class _AliasSubstMany(ast.NodeTransformer):
+    def __init__(self, mapping):
+        self.mapping = mapping
+
+    def visit_Name(self, node):
+        if node.id in self.mapping and isinstance(node.ctx, ast.Load):
+            return ast.copy_location(copy.deepcopy(self.mapping[node.id]), node)
         return node
 
 
@@ -711,6 +809,63 @@ def _propagate_in_function(fn, final):
                 return False
             ok_value = (_final_chain(v) and "self" in params and stores.get("self", 0) == 0) or \
                        (isinstance(v, ast.Name) and v.id in params and stores.get(v.id, 0) == 0)
+            # `t = (x, y)` used only as `*t` in calls: the elements are passed directly
+            if isinstance(v, ast.Tuple) and all(_simple(x) for x in v.elts) and stores.get(a, 0) == 1 and a not in params and \
+                    not any(stores.get(n_.id, 0) for x in v.elts for n_ in ast.walk(x) if isinstance(n_, ast.Name) and n_.id not in params):
+                uses = [n_ for b in fn.body for n_ in ast.walk(b) if isinstance(n_, ast.Name) and n_.id == a and isinstance(n_.ctx, ast.Load)]
+                starred = [n_ for b in fn.body for n_ in ast.walk(b) if isinstance(n_, ast.Starred) and isinstance(n_.value, ast.Name) and n_.value.id == a]
+                before_ = any(isinstance(n_, ast.Name) and n_.id == a for b in fn.body[:i] for n_ in ast.walk(b))
+                if uses and len(uses) == len(starred) and not before_:
+                    class _Spread(ast.NodeTransformer):
+                        def visit_Call(self_, node):
+                            self_.generic_visit(node)
+                            args = []
+                            for x in node.args:
+                                if isinstance(x, ast.Starred) and isinstance(x.value, ast.Name) and x.value.id == a:
+                                    args.extend(copy.deepcopy(e_) for e_ in v.elts)
+                                else:
+                                    args.append(x)
+                            node.args = args
+                            return node
+                    for k in range(i + 1, len(fn.body)):
+                        fn.body[k] = _Spread().visit(fn.body[k])
+                    del fn.body[i]
+                    done += 1
+                    continue
+            # `d = {"k": v, ...}` used only as `**d` in calls: passed as keyword arguments
+            if isinstance(v, ast.Dict) and v.keys and all(isinstance(k_, ast.Constant) and isinstance(k_.value, str) and k_.value.isidentifier() for k_ in v.keys) \
+                    and stores.get(a, 0) == 1 and a not in params:
+                uses = [n_ for b in fn.body for n_ in ast.walk(b) if isinstance(n_, ast.Name) and n_.id == a and isinstance(n_.ctx, ast.Load)]
+                spreads = [k_ for b in fn.body[i + 1:] for c_ in ast.walk(b) if isinstance(c_, ast.Call) for k_ in c_.keywords
+                           if k_.arg is None and isinstance(k_.value, ast.Name) and k_.value.id == a]
+                touched = any(isinstance(n_, ast.Subscript) and isinstance(n_.value, ast.Name) and n_.value.id == a for b in fn.body for n_ in ast.walk(b))
+                if uses and len(uses) == len(spreads) == 1 and not touched:
+                    class _SpreadKw(ast.NodeTransformer):
+                        def visit_Call(self_, node):
+                            self_.generic_visit(node)
+                            kws = []
+                            for k_ in node.keywords:
+                                if k_.arg is None and isinstance(k_.value, ast.Name) and k_.value.id == a:
+                                    kws.extend(ast.keyword(arg=kk.value, value=copy.deepcopy(vv)) for kk, vv in zip(v.keys, v.values))
+                                else:
+                                    kws.append(k_)
+                            node.keywords = kws
+                            return node
+                    for k in range(i + 1, len(fn.body)):
+                        fn.body[k] = _SpreadKw().visit(fn.body[k])
+                    del fn.body[i]
+                    done += 1
+                    continue
+            # `t = (<display>)` used once, as the iterable of a for loop: the display is iterated directly (and then unrolled)
+            if isinstance(v, (ast.Tuple, ast.List)) and stores.get(a, 0) == 1 and a not in params:
+                uses = [n_ for b in fn.body for n_ in ast.walk(b) if isinstance(n_, ast.Name) and n_.id == a and isinstance(n_.ctx, ast.Load)]
+                loops = [n_ for b in fn.body[i + 1:] for n_ in ast.walk(b) if isinstance(n_, ast.For) and isinstance(n_.iter, ast.Name) and n_.iter.id == a]
+                between_ok = len(uses) == 1 and len(loops) == 1 and i + 1 < len(fn.body) and any(fn.body[i + 1] is l_ for l_ in loops)
+                if between_ok:
+                    loops[0].iter = v
+                    del fn.body[i]
+                    done += 1
+                    continue
             if ok_value and stores.get(a, 0) == 1 and a not in params:
                 used_before = any(isinstance(n, ast.Name) and n.id == a for b in fn.body[:i] for n in ast.walk(b))
                 if not used_before:
@@ -848,10 +1003,23 @@ def import_foreign_helpers(trees):
 def inline_module(module_name, tree):
     """Expand new same-module helpers in `tree` (in place).  -> dict(expanded=..., removed=...) for evidence."""
     deselect_module(tree)
-    propagate_aliases(tree)
+    if propagate_aliases(tree):
+        _ReturnIfExp().visit(tree)          # a display substituted for its alias may now be unrolled
+        ast.fix_missing_locations(tree)
     known = known_functions().get(module_name, set())
     inl = _Inliner(module_name, tree, known)
     did = inl.run()
+    if did:
+        # the expanded bodies may contain the idioms the earlier passes normalise (aliases, displays spread into calls, ...)
+        _ReturnIfExp().visit(tree)
+        ast.fix_missing_locations(tree)
+        counter = [1000]
+        for st in ast.walk(tree):
+            if isinstance(st, ast.FunctionDef):
+                _deselect_block(st.body, st, counter)
+        if propagate_aliases(tree):
+            _ReturnIfExp().visit(tree)
+            ast.fix_missing_locations(tree)
     return {"expanded": dict(("%s.%s" % k if k[0] else k[1], v) for k, v in inl.expanded.items()),
             "removed": ["%s.%s" % k if k[0] else k[1] for k in getattr(inl, "removed", [])],
             "left": dict(("%s.%s" % k if k[0] else k[1], v) for k, v in inl.left.items())} if did or inl.left else None
